@@ -39,16 +39,30 @@ func c14SpecAccept(q string) bool {
 			return false
 		}
 	}
-	nonBlank := false
-	for _, r := range q {
-		if unicode.IsControl(r) && r != '\n' && r != '\t' {
-			continue // removed
+	// "not blank once control characters are removed": removal is taken to a fixpoint -
+	// deleting a control character between two stray UTF-8 bytes can join them into a new
+	// character, and the result must still contain no control character
+	cur := q
+	for {
+		var kept []byte
+		for i := 0; i < len(cur); {
+			r, n := utf8.DecodeRuneInString(cur[i:])
+			if !(unicode.IsControl(r) && r != '\n' && r != '\t') {
+				kept = append(kept, cur[i:i+n]...)
+			}
+			i += n
 		}
+		if len(kept) == len(cur) {
+			break
+		}
+		cur = string(kept)
+	}
+	for _, r := range cur {
 		if !unicode.IsSpace(r) {
-			nonBlank = true
+			return true
 		}
 	}
-	return nonBlank
+	return false
 }
 
 func c14CheckClean(in, out string) {
